@@ -37,20 +37,55 @@ class Anchors:
         self.i_zc = field_index(F, NOD, "zero_cache")
         st = F.adts[STATE]
         self.variants = {v["name"]: v["idx"] for v in st["variants"]}
-        for nm in ("LookingForMessageStart", "ParsingNormal", "ParsingEscChars", "ParsingEscPayload", "Done"):
-            if nm not in self.variants:
-                raise AnchorMissing("DecodeState::%s not found" % nm)
+        names = ("LookingForMessageStart", "ParsingNormal", "ParsingEscChars", "ParsingEscPayload", "Done")
+        if any(nm not in self.variants for nm in names):
+            # variants were renamed / reordered: identify them by the shape of their payload (two counters / nothing / one
+            # small counter / index + 4-byte array); of the two payload-free variants the first declared is the in-frame
+            # state.  A wrong identification cannot hide a defect: the rules would then fail on the unchanged behaviour.
+            def sig(v):
+                out = []
+                for fl in v["fields"]:
+                    t = fl["ty"]
+                    out.append("a" if t.get("k") == "array" else ("i%d" % t.get("w", 0) if t.get("k") == "int" else "?"))
+                return tuple(sorted(out))
+            by = {}
+            for v in st["variants"]:
+                by.setdefault(sig(v), []).append(v["idx"])
+            look = [i for sg_, ix in by.items() if len(sg_) == 2 and "a" not in sg_ and "?" not in sg_ for i in ix]
+            pay = [i for sg_, ix in by.items() if len(sg_) == 2 and "a" in sg_ for i in ix]
+            chars = [i for sg_, ix in by.items() if len(sg_) == 1 and sg_[0].startswith("i") for i in ix]
+            nul = sorted(by.get((), []))
+            if not (len(st["variants"]) == 5 and len(look) == 1 and len(pay) == 1 and len(chars) == 1 and len(nul) == 2):
+                raise AnchorMissing("DecodeState: variants %r cannot be identified" % sorted(self.variants))
+            self.variants = {"LookingForMessageStart": look[0], "ParsingEscPayload": pay[0], "ParsingEscChars": chars[0],
+                             "ParsingNormal": nul[0], "Done": nul[1]}
         self.v_look = self.variants["LookingForMessageStart"]
         self.v_done = self.variants["Done"]
         self.v_normal = self.variants["ParsingNormal"]
         self.v_payload = self.variants["ParsingEscPayload"]
         lf = st["variants"][self.v_look]["fields"]
         self.look_fields = [f["name"] for f in lf]
-        self.i_disc = self.look_fields.index("num_discarded_bytes")
-        self.i_init = self.look_fields.index("num_init_seq_bytes")
-        pf = [f["name"] for f in st["variants"][self.v_payload]["fields"]]
-        self.i_step = pf.index("step")
-        self.i_payload = pf.index("payload")
+        if "num_discarded_bytes" in self.look_fields and "num_init_seq_bytes" in self.look_fields:
+            self.i_disc = self.look_fields.index("num_discarded_bytes")
+            self.i_init = self.look_fields.index("num_init_seq_bytes")
+        else:
+            # renamed: the noise counter is the wider of the two integers
+            ws = [f["ty"].get("w", 0) for f in lf]
+            if len(lf) != 2 or ws[0] == ws[1]:
+                raise AnchorMissing("fields of the start-search state cannot be identified")
+            self.i_disc = 0 if ws[0] > ws[1] else 1
+            self.i_init = 1 - self.i_disc
+        pfl = st["variants"][self.v_payload]["fields"]
+        pf = [f["name"] for f in pfl]
+        if "step" in pf and "payload" in pf:
+            self.i_step = pf.index("step")
+            self.i_payload = pf.index("payload")
+        else:
+            arr = [i for i, f in enumerate(pfl) if f["ty"].get("k") == "array"]
+            if len(pfl) != 2 or len(arr) != 1:
+                raise AnchorMissing("fields of the escape-payload state cannot be identified")
+            self.i_payload = arr[0]
+            self.i_step = 1 - arr[0]
         err = F.adts[ERR]
         self.err_variants = {v["name"]: v["idx"] for v in err["variants"]}
         self.push = self.method("push_byte")
